@@ -95,12 +95,26 @@ NEEDS.update({
  "R5_C08_2":"BoxedMontyForm::double with the top bit of the modulus set and a representation >= 2^(BITS-1)",
  "R5_C08_3":"pow_bounded_exp with exponent_bits not a multiple of 4 and exponent bits set above the bound inside the top window",
 })
+NEEDS.update({
+ "R6_C08_1":"BoxedMontyForm::pow / pow_bounded_exp where the almost-Montgomery accumulator ends with floor(z/m) = 2 (modulus with its top bit clear, rare operand pair), looking at the stored form",
+ "R6_C08_2":"squaring (not multiplying) a non-zero boxed value whose square is 0 mod m (nilpotent element of a modulus with a square factor)",
+ "R6_C08_3":"the borrowed-minus-owned operator `&a - b` on BoxedMontyForm with a == b",
+ "R6_C18_1":"DER encoding of a fixed-width value with an all-zero limb below a non-zero one",
+ "R6_C18_2":"U8192 only, value with the top bit set (1025 content octets)",
+ "R6_C18_3":"a zero Uint appended to an open RlpStream list (two cooperating sites)",
+ "R6_C19_1":"a multi-limb modulus, a candidate rejected by the full-width comparison, and a distribution or stream-consumption check",
+ "R6_C19_2":"ConstMontyForm::random on a compile-time modulus not close to 2^BITS, and a distribution or stream-consumption check",
+ "R6_C19_3":"BoxedUint::try_random_bits_with_precision with a precision that is not a multiple of 64 and a bit_length between it and the limb-rounded precision",
+ "R6_C11_1":"the debug-assertion profile, a boxed division whose normalised remainder and divisor share their top limb (e.g. BoxedMontyParams::new for a modulus next to 2^BITS/3)",
+ "R6_C11_2":"the debug-assertion profile and any operation on the result of negating a boxed zero",
+ "R6_C11_3":"the debug-assertion profile and the U3584 width only (ArrayEncoding / DER)",
+})
 os.makedirs("/verif/seeded", exist_ok=True)
 rows=[]
 for name, needs in NEEDS.items():
     parts = name.split("_")
     prop, i = parts[-2], parts[-1]
-    src=f"/tmp/wt2_{prop}/seeded_out/{i}" if name.startswith("R2_") else (f"/tmp/wt3_{prop}/seeded_out/{i}" if name.startswith("R3_") else (f"/tmp/wt4_{prop}/seeded_out/{i}" if name.startswith("R4_") else (f"/tmp/wt5_{prop}/seeded_out/{i}" if name.startswith("R5_") else f"/tmp/wt_{prop}/seeded_out/{i}")))
+    src=f"/tmp/wt2_{prop}/seeded_out/{i}" if name.startswith("R2_") else (f"/tmp/wt3_{prop}/seeded_out/{i}" if name.startswith("R3_") else (f"/tmp/wt4_{prop}/seeded_out/{i}" if name.startswith("R4_") else (f"/tmp/wt5_{prop}/seeded_out/{i}" if name.startswith("R5_") else f"/tmp/wt6_{prop}/seeded_out/{i}" if name.startswith("R6_") else f"/tmp/wt_{prop}/seeded_out/{i}")))
     res_p=f"/tmp/seed_logs/{name}.json"
     if not (os.path.isdir(src) and os.path.exists(res_p)):
         if not os.path.exists(f"/verif/seeded/{name}/meta.json"): print("missing", name)
@@ -128,6 +142,9 @@ for name, needs in NEEDS.items():
       "caught_by":caught,
       "first_violations_reported":first,
     }
+    if name.startswith("R6_"):
+        meta["written_by"]="independent sub-agent given the property text, a scratch worktree, and (round 6 only) a list of the kinds of change earlier rounds had already tried, so that it would look elsewhere; nothing from /verif"
+        meta["confirmed_by_me"]["worktree"]=meta["confirmed_by_me"]["worktree"].replace("/tmp/wt_eval ","/tmp/wt_eval or /tmp/wt_eval2 ")
     old_p=os.path.join(dst,"meta.json")
     if os.path.exists(old_p):
         try:
